@@ -380,6 +380,12 @@ theorem tie_compareAndTouchSkel : compareAndTouchSkel =
 theorem tie_getFuncCalls : fsCalls getFuncCalls = skeleton .getFunc := by decide
 theorem tie_statCalls : fsCalls statCalls = skeleton .stat := by decide
 
+/-- osWithStats.TempFile, whole text (tiny function): the temp file is created by ioutil.TempFile,
+i.e. O_EXCL with a random suffix, so two writers never share a temp file (the `sfx ≠` hypothesis
+of C02_concurrent_writes_atomic; Model.createTemp) -/
+theorem tie_tempFileText : tempFileText =
+  "{ o.stats.TickOps(\"create\") o.stats.Tick(&o.stats.CreateOps) f, err := ioutil.TempFile(dir, base) o.stats.TickErr(err) return f, err }" := rfl
+
 /-- the literals the model's names are built from -/
 theorem tie_tmpPrefix : tmpPrefix = "tmp".toList := by decide
 theorem tie_trashInfix : trashInfix = ".trash.".toList := by decide
